@@ -4,7 +4,7 @@
 X=$1; ID=${2:-${X%%-*}}; TIER=${3:-quick}
 W=/tmp/try-$X-$$
 git -C /repo worktree add --detach $W HEAD >/dev/null 2>&1 || { echo "worktree failed"; exit 2; }
-( cd $W && git apply /verif/seeded/$X/patch.diff ) || { echo "patch does not apply"; git -C /repo worktree remove --force $W; exit 2; }
+( cd $W && { git apply /verif/seeded/$X/patch.diff 2>/dev/null || git apply --3way /verif/seeded/$X/patch.diff; } ) || { echo "patch does not apply"; git -C /repo worktree remove --force $W; exit 2; }
 cd /verif
 VERIF_REPO=$W timeout 3000 ./run.sh $ID --tier $TIER > /var/tmp/qlogs/try-$X-$ID.log 2>&1; RC=$?
 echo "$X check=$ID tier=$TIER exit=$RC violations=$(grep -c '^VIOLATION' /var/tmp/qlogs/try-$X-$ID.log)"
